@@ -1183,6 +1183,11 @@ class FuncAnalysis:
                     continue
                 if isinstance(ch, ast.Return):
                     v = ch.value
+                    if isinstance(v, ast.Name):
+                        # `result = True; return result`: a local that only ever holds one constant inside the loop
+                        vals_ = [n_.value for n_ in ast.walk(loop) if isinstance(n_, ast.Assign) and any(isinstance(t_, ast.Name) and t_.id == v.id for t_ in n_.targets)]
+                        if vals_ and all(isinstance(x_, ast.Constant) for x_ in vals_) and len({repr(x_.value) for x_ in vals_}) == 1:
+                            v = vals_[0]
                     k = "return " + (repr(None) if v is None else repr(v.value) if isinstance(v, ast.Constant) else "<expr>")
                     outcomes.setdefault(k, ch)
                 elif isinstance(ch, ast.Break) and not in_inner_loop:
